@@ -244,6 +244,7 @@ struct AnyEngine
         W.cur_site = site.c_str(); W.cur_op = idx;
         W.place.right = op.num("left") == 0;
         W.place.slack = (unsigned)(op.num("slack") % 5) * 16u;
+        W.place.res = (unsigned)(op.num("res") % 16);
         W.alloc_fault.reset();
         Json const& f = op.at("fault");
         if (!f.is_null() && f.str("kind") == "alloc") W.alloc_fault.arm((long)f.num("k"));
